@@ -126,6 +126,11 @@ let dispatch (fields : string list) : string =
       (match compile (text_of_field src) with
        | Ok (bytes, log) -> field_of_bytes bytes ^ "\t" ^ field_of_text log
        | Panic _ -> "PANIC" | OutOfFuel -> "OUTOFFUEL" | Unsupported w -> "UNSUPPORTED:" ^ string_of_z w)
+  | ["compile_core_ja"; src] ->
+      (* the same pipeline with the message language ja (SakuraCompiler::set_language("ja")): Compile.compile_lang true *)
+      (match compile_lang true (text_of_field src) with
+       | Ok (bytes, log) -> field_of_bytes bytes ^ "\t" ^ field_of_text log
+       | Panic _ -> "PANIC" | OutOfFuel -> "OUTOFFUEL" | Unsupported w -> "UNSUPPORTED:" ^ string_of_z w)
   | ["generate"; tb; tracks] ->
       string_of_res field_of_bytes (generate (z_of_string tb) (tracks_of_field tracks))
   | ["container"; bytes] ->
